@@ -29,7 +29,24 @@ NOT_SHOWN = {
         "path and iface streams on the sampled inputs, not proved; (2) that for GENERAL rotations scipy `Rotation` is a group acting on R^3 up to "
         "floating-point rounding -- the abstract-group theorems describe the code for arbitrary rotations only modulo this (DESIGN section 4); rounding is "
         "looked at by the float oracle only; (3) non-octahedral integer matrices on the driver are outside every group-theoretic statement (the parser "
-        "accepts them, no stream sends them)"],
+        "accepts them, no stream sends them)",
+        "audit2, post-processing theorems: (a) `covariance_after_postprocessing*` are corollaries of `covariance_end_to_end` (the tensor BEFORE pixel_agg is "
+        "already identical for a co-moved Sensor, so every function of it is) plus invariance of the error exits and of the shape; no hypothesis on the "
+        "reduction is hidden, the only hypothesis is `Sens.WF` (non-empty orientation path, position and orientation paths of equal length, as many pixel "
+        "offsets as the pixel shape says). (b) position observers: the hypothesis `hagg` (the reduction commutes with Q) carries the pixel_agg step; it is "
+        "DISCHARGED only for `sum` (`sum_commutes_with_rotation`, `covariance_positions_after_postprocessing_sum` for the driver's `getBH ... .sum`, "
+        "`..._on_driver_carrier` with an applied example); that `mean` commutes is stated in a doc comment and NOT proved (the carrier `V` has no division). "
+        "`position_observers_max_not_rotated_final`: for max the conclusion is false on the final result of `getBHF` (both calls accepted, (-1,0,0) vs Q.(2,0,0) = (-2,0,0)). "
+        "(c) position observers are modelled as ONE flat list of positions (`obsSensor`: unit pose, pixShape [n]); observer arrays of shape (n1, n2, 3) are "
+        "the glue of Model/Iface (C07 `observers_as_positions`). (d) the wrong order `Model/Level2.tensorAggFirst` of the witness "
+        "`aggregate_then_rotate_not_covariant` is a counter-model that NO driver command runs; the stream counter `distinguishes_aggregate_then_rotate` "
+        "evaluates the wrong order independently in Python on the real pre-aggregation values. (e) carrier of the level2f stream: the driver evaluates `getBHF` "
+        "with Model/PixelAgg at `M3 Float` / `V3 Float`; no theorem applies to that instantiation (Float is neither a group nor an AddCommGroup) and the "
+        "`_on_driver_carrier` theorems are for `M3 Int` and reductions `List (V3 Int) -> V3 Int`, which mean / median / std are not: for these reductions "
+        "theorem and stream are linked only by being instances of the same polymorphic definition `getBHF` (for sum / min / max additionally by "
+        "`getBH_eq_F` and the exact level2 stream). audit2 added a carrier on which the reductions of Model/PixelAgg ARE instances `f` of the theorems "
+        "(Lemmas/Audit2C04.lean: the octahedral group acting on V3 Real; `covariance_after_postprocessing_named_numpy_reduction` = the level2f driver "
+        "expression `byName name = some a, getBHF ... a` at the reals) -- exact real arithmetic, octahedral rotations only"],
  "04": ["pixel_agg reductions other than sum/min/max (mean, median, std, ...) are not modelled; the theorem holds for any reduction function of the pixel list, the stream exercises sum/min/max"],
  "05": ["linearity of each class's kernel in its excitation (kernel-level, see C01/C02); proved here: the marshalling preserves it for any F"],
  "06": ["batch-level control flow inside kernels (rowwise_c: trimesh grouping, segment early return, cel n<10) — kernel model pending",
